@@ -133,8 +133,13 @@ def generate(rng, tier, index):
     ops = []
     for i in range(n):
         ops.append({"op": "write", "desc": rng.choice(["D0", "D1", "D2", "D3"]) if multi else "D0"})
-        if rng.random() < 0.15:
+        r = rng.random()
+        if r < 0.15:
             ops.append({"op": "flush"})
+        elif r < 0.22:
+            ops.append({"op": "write", "desc": "D0", "huge": True})  # a value some adapters refuse (2**70): the caller goes on
+        elif r < 0.27 and tkind != "sqlite":
+            ops.append({"op": "fault_open"})  # the next open of an output file fails once (full disk, permissions)
     term = rng.choice(TERMINATORS)
     for ch in term:
         ops.append({"c": {"op": "close"}, "f": {"op": "flush"}, "X": {"op": "exit"}, "R": {"op": "raise_exit"}}[ch])
@@ -202,15 +207,12 @@ def _ids_from_stream_bytes(plain):
     for f in frames:
         if f.kind == "REC":
             v = f.info["values"][0]
-            ids.append(v.value[1] if isinstance(v, refcodec.Ext) else v)
-    out = []
-    for v in ids:
-        if isinstance(v, tuple):  # varint ext: (neg, bytes)
-            neg, b = v
-            x = int.from_bytes(b, "big")
-            out.append(-x if neg else x)
-        else:
-            out.append(v)
+            if isinstance(v, refcodec.Ext):  # integers beyond 64 bits travel as (negative?, big-endian bytes)
+                neg, b = v.value
+                x = int.from_bytes(b, "big")
+                v = -x if neg else x
+            ids.append(v)
+    out = ids
     return out, reason, sum(1 for f in frames if f.kind == "HEADER")
 
 
@@ -295,6 +297,29 @@ def _viol(inv, detail, info=None):
     return {"invariant": inv, "detail": detail, "info": info or {}}
 
 
+class Want(list):
+    """The ids of acknowledged writes, compared leniently with respect to ``optional`` ids: a write that raised
+    may or may not have stored its record (0 or 1 copies, never more), everything else must match exactly."""
+
+    def __init__(self, ids, optional=()):
+        super().__init__(ids)
+        self.optional = set(optional)
+
+    def _same(self, other):
+        other = list(other)
+        if any(other.count(o) > 1 for o in self.optional):
+            return False
+        return [x for x in other if x not in self.optional] == list(self)
+
+    def __eq__(self, other):
+        return self._same(other)
+
+    def __ne__(self, other):
+        return not self._same(other)
+
+    __hash__ = None
+
+
 # -- sub-scenario: histories ------------------------------------------------------------------------
 def run_history(plan, w, viols, states):
     from flow.record import RecordWriter
@@ -311,6 +336,7 @@ def run_history(plan, w, viols, states):
     w.fs.makedirs("/simfs/cwd/sub", exist_ok=True)
     pool = Pool(plan["pool"])
     model = []  # (n, s) of records whose write returned
+    optional = set()  # ids of writes that raised: refused, but possibly stored
     attempted = 0
     refused = 0
     closed = False
@@ -352,6 +378,8 @@ def run_history(plan, w, viols, states):
                     continue
                 n = attempted
                 attempted += 1
+                if op.get("huge"):
+                    n = 2**70 + n
                 desc = op.get("desc", "D0")
                 if desc == "D2":
                     rec = pool.make("D2", [n, enc_value(_dt.datetime(2024, 1, 2, 3, 4, 5, tzinfo=_dt.timezone.utc))])
@@ -362,9 +390,9 @@ def run_history(plan, w, viols, states):
                 else:
                     rec = pool.make("D0", [n, "v%d" % n])
                 if neighbour is not None:
-                    nrec = pool.make("D0", [1000 + n, "nb%d" % n])
+                    nrec = pool.make("D0", [1000 + attempted, "nb%d" % attempted])
                     neighbour.write(nrec)
-                    nb_model.append(1000 + n)
+                    nb_model.append(1000 + attempted)
                 try:
                     writer.write(rec)
                     model.append((n, "v%d" % n if desc != "D2" else "t"))
@@ -372,9 +400,14 @@ def run_history(plan, w, viols, states):
                     w.log("w", "write", n, "-> ok")
                 except Exception as e:  # noqa: BLE001
                     refused += 1
+                    optional.add(n)
                     shape.append("!")
                     w.probe("write-refused")
                     w.log("w", "write", n, "->", type(e).__name__)
+            elif k == "fault_open":
+                if not closed:
+                    w.fs.inject["open_w"] = "ENOSPC"
+                    w.log("fault", "arm", "open_w")
             elif k == "flush":
                 if closed:
                     continue
@@ -383,7 +416,8 @@ def run_history(plan, w, viols, states):
                     shape.append("f")
                     w.log("w", "flush", "-> ok")
                 except Exception as e:  # noqa: BLE001
-                    add(_viol("C17.flush-raises", "flush() raised %s: %s after %s" % (type(e).__name__, e, "".join(shape))))
+                    if not (optional or w.stats["fault:open_error"]):
+                        add(_viol("C17.flush-raises", "flush() raised %s: %s after %s" % (type(e).__name__, e, "".join(shape))))
                     w.log("w", "flush", "->", type(e).__name__)
             elif k in ("close", "exit", "raise_exit"):
                 try:
@@ -400,7 +434,7 @@ def run_history(plan, w, viols, states):
                     w.log("w", k, "->", type(e).__name__)
                     if closed:
                         add(_viol("C17.double-close", "closing an already closed %s writer raised %s: %s" % (kind, type(e).__name__, e)))
-                    else:
+                    elif not (optional or w.stats["fault:open_error"]):
                         add(_viol("C17.close-raises", "%s on a %s writer raised %s: %s (history %s)" % (k, kind, type(e).__name__, e, "".join(shape))))
                 shape.append({"close": "c", "exit": "X", "raise_exit": "R"}[k])
                 closes += 1
@@ -421,7 +455,8 @@ def run_history(plan, w, viols, states):
             for pth in [x for x in w.fs.listing() if "/nb/" in x]:
                 nb_files[pth] = w.fs.files.pop(pth)
         states.add("%s|%s" % (kind, "".join(shape)[:12]))
-        check_history(plan, w, kind, uri, scratch, model, shape, add)
+        w.fs.inject.clear()
+        check_history(plan, w, kind, uri, scratch, model, shape, add, optional)
         for pth, ino in nb_files.items():
             w.fs.files[pth] = ino
             res = decode_target(w, kind, pth, bytes(ino.data))
@@ -442,8 +477,9 @@ def snapshot_targets(w, kind, scratch):
     return {p: w.fs.get(p) for p in w.fs.listing()}
 
 
-def check_history(plan, w, kind, uri, scratch, model, shape, add):
-    want_ids = [n for n, _ in model]
+def check_history(plan, w, kind, uri, scratch, model, shape, add, optional=()):
+    want_ids = Want([n for n, _ in model], optional)
+    model = [m for m in model]
     hist = "".join(shape)
     if kind == "sqlite":
         p = os.path.join(scratch, "o.db")
@@ -457,11 +493,11 @@ def check_history(plan, w, kind, uri, scratch, model, shape, add):
         except Exception as e:  # noqa: BLE001
             add(_viol("C17.empty-invalid" if not model else "C17.lost", "sqlite3 cannot read the database after history %s: %s" % (hist, e)))
             return
-        if sorted(ids) != sorted(want_ids):
+        if Want(sorted(want_ids), optional) != sorted(ids):
             _report_ids(add, kind, hist, want_ids, sorted(ids), "independent sqlite3 connection", "")
         try:
             got = sorted(lib_read_ids("sqlite://" + p))
-            if [g[0] for g in got] != sorted(want_ids):
+            if Want(sorted(want_ids), optional) != [g[0] for g in got]:
                 _report_ids(add, kind, hist, sorted(want_ids), [g[0] for g in got], "SqliteReader", "")
             if not model:
                 w.probe("empty-output-read")
@@ -588,7 +624,7 @@ def judge_file(add, kind, hist, want_ids, model, res, w, empty_ok_kinds):
         else:
             if [g[0] for g in res["lib"]] != want_ids:
                 _report_ids(add, kind, hist, want_ids, [g[0] for g in res["lib"]], "library reader", "")
-            elif [g[1] for g in res["lib"]] != [s for _, s in model]:
+            elif not getattr(want_ids, "optional", None) and [g[1] for g in res["lib"]] != [s for _, s in model]:
                 add(_viol("C17.order", "%s writer, history %s: record payloads differ from what was written" % (kind, hist)))
 
 
@@ -804,7 +840,7 @@ def execute(plan, keep_log=False):
         trace = w.trace
         sim_us = w.clock.covered_us
     if plan["sub"] == "history":
-        sample = {"target": plan["target"], "uri": plan["uri"], "ops": "".join({"write": "w", "flush": "f", "close": "c", "exit": "X", "raise_exit": "R"}[o["op"]] for o in plan["ops"]), "count": plan["count"]}
+        sample = {"target": plan["target"], "uri": plan["uri"], "ops": "".join({"write": "w", "flush": "f", "close": "c", "exit": "X", "raise_exit": "R", "fault_open": "!"}[o["op"]] for o in plan["ops"]), "count": plan["count"]}
     else:
         sample = {"archive": plan["kind"], "ops": [o["op"] + (":%d" % o["dt_us"] if "dt_us" in o else "") for o in plan["ops"]]}
     return {"violations": viols, "digest": digest, "stats": stats, "states": states, "evals": 1, "sim_us": sim_us, "trace": trace,
